@@ -114,7 +114,9 @@ def spec : List (String × String × String) := [
   ("sdf", "atcoords", "angstrom"),            -- CTfile (MDL) atom block: coordinates in Å
   ("poscar", "atcoords", "angstrom"),         -- VASP POSCAR: Cartesian positions in Å (× scaling)
   ("poscar", "cellvecs", "angstrom"),         -- VASP POSCAR: lattice vectors in Å (× scaling)
+  ("poscar-kartesian", "atcoords", "angstrom"),  -- the same with the mode line spelled `Kartesian` (VASP reads C, c, K, k)
   ("chgcar", "atcoords", "angstrom"),         -- VASP CHGCAR header = POSCAR
+  ("chgcar-kartesian", "atcoords", "angstrom"),
   ("chgcar", "cellvecs", "angstrom"),
   ("chgcar", "cube.data", "per-1000-cubic-angstrom"),
   ("chgcar-lefthanded", "cube.data", "per-1000-cubic-angstrom"),  -- same fixture with two lattice vectors exchanged: the volume is an absolute value  -- VASP CHGCAR stores density × cell volume; the probe fixture CHGCAR.oxygen has a 10 Å cubic cell
